@@ -137,6 +137,46 @@ def check_message(ctx, identity, vs, cs, ms, pad1, seedtag):
     return enc
 
 
+def wide_mask_case(ctx, identity, seedtag):
+    """MSM with NSat x NSig > 64 (beyond the standard's limit): the parser may reject the message with a
+    library error, or decode it with the cell mask NSat x NSig bits wide - but never silently otherwise."""
+    import random
+
+    from vf import common
+
+    rng = random.Random(seedtag)
+    nsat = rng.randint(3, 40)
+    nsig = rng.randint(max(2, 65 // nsat + 1), min(32, max(2, 400 // nsat)))
+    if nsat * nsig <= 64:
+        return
+    sat = sum(1 << b for b in rng.sample(range(64), nsat))
+    sig = sum(1 << b for b in rng.sample(range(32), nsig))
+    cm = 0
+    for b in rng.sample(range(nsat * nsig), rng.randint(0, 12)):
+        cm |= 1 << b
+    params = {"identity": identity, "seedtag": seedtag, "wide": True}
+    try:
+        enc = refmodel.build(identity, rng, "random", "small", "random",
+                             force={"DF394": sat, "DF395": sig, "DF396": cm}, maxcells=4096)
+    except (refmodel.DefinitionError, RuntimeError):
+        return
+    try:
+        msg = parse(enc.payload)
+    except common.lib_errors():
+        ctx.hit("wide_mask_rejected")
+        return
+    except Exception as e:
+        ctx.violation("parse-raised", f"{identity} wide mask {nsat}x{nsig}: {type(e).__name__}: {e}", params)
+        return
+    diff = refmodel.compare(enc, msg)
+    ctx.hit("wide_mask_compared")
+    if diff:
+        ctx.violation("value-mismatch", f"{identity} with NSat x NSig = {nsat}x{nsig} > 64 accepted but decoded "
+                      f"differently from a {nsat * nsig}-bit cell mask: {diff}", params)
+        return
+    ctx.case(enc.payload + b"|wide", True)
+
+
 def run(ctx):
     installed = monitors.install_field_monitor()
     ctx.note("field_contract_installed", installed)
@@ -171,6 +211,9 @@ def run(ctx):
                             "payload_bits": enc.nbits,
                             "expected_first": [[n, v if not isinstance(v, tuple) else list(v)]
                                                for n, v, _ in enc.expected[:8]]})
+        if msm:
+            for _ in range(6 if ctx.quick else 200):
+                wide_mask_case(ctx, identity, rng.getrandbits(48))
         # definition coverage (boundary measure: leaf keys that occurred in compared messages)
         try:
             _, _, leaves = refmodel.prescan(refmodel.tables()[0][identity])
@@ -204,6 +247,9 @@ GATES_ZERO = ["leaf_fields_uncovered"]
 
 def replay(ctx, p):
     monitors.install_field_monitor()
+    if p.get("wide"):
+        wide_mask_case(ctx, p["identity"], p["seedtag"])
+        return
     ctx.leafseen = set()
     ctx.maxindex = 0
     ctx.nflips = 6
